@@ -107,6 +107,13 @@ Lemma flat_go me l : (fix go (l : list node) := match l with [] => [] | x :: r =
 Proof. induction l; simpl; congruence. Qed.
 
 Definition is_prop_obj (o : obj) : bool := match o with OProp _ _ _ => true | _ => false end.
+Lemma printable_id ps : forallb is_prop_obj ps = true -> printable ps = ps.
+Proof.
+  unfold printable. induction ps as [|p r IH]; [reflexivity|]. simpl. intros H. apply andb_true_iff in H as [Hp Hr].
+  destruct p; try discriminate. now rewrite IH.
+Qed.
+Lemma own_props_all body : forallb is_prop_obj (own_props body) = true.
+Proof. unfold own_props. induction body as [|c r IH]; [reflexivity|]. destruct c; cbn [flat_map app forallb is_prop_obj]; auto. Qed.
 Definition plain_block_obj (o : obj) : bool := match o with OBlock (ONIdent false _) _ _ => true | _ => false end.
 (* an output block tree made of ordinary rules whose own list holds declarations only *)
 Fixpoint plain_tree (o : obj) : bool :=
@@ -187,7 +194,7 @@ Proof.
     rewrite Ego. cbn [rbind]. rewrite P2. cbn [flat_map app]. rewrite app_nil_r.
     eexists. split; [reflexivity|]. cbn [stmt_result].
     set (blocks := filter (fun o => obj_is_block o && negb (obj_is_media o)) inner) in *.
-    cbn [flat]. fold me. rewrite P1. rewrite (flat_go me body). rewrite <- P3.
+    cbn [flat]. fold me. rewrite P1. rewrite (printable_id _ (own_props_all body)). rewrite (flat_go me body). rewrite <- P3.
     destruct (own_props body ++ blocks) as [|x l] eqn:E.
     + apply app_eq_nil in E as [E1 E2]. rewrite E1, E2. cbn. split; [constructor|reflexivity].
     + cbn [length Nat.eqb]. split.
